@@ -7,6 +7,10 @@ package shell_operator
 // cluster changes from the very first moment. All schedules within the delay bound.
 
 import (
+	"k8s.io/apimachinery/pkg/runtime"
+	fakedynamic "k8s.io/client-go/dynamic/fake"
+	k8stesting "k8s.io/client-go/testing"
+
 	"context"
 	"fmt"
 	"sort"
@@ -56,6 +60,10 @@ type c06spec struct {
 	FailJ int       // index into the expected start-up list of the execution that fails (-1: none)
 	FailK int
 	Names []string  // explicit hook paths (given in lexical order), else h<i>-<id>.sh
+	// ListFail: the first LIST of ConfigMaps in this namespace is answered with an error (an
+	// API server that is not ready yet): enabling the hook's kubernetes bindings fails once and
+	// is retried; every binding must still get its Synchronization exactly once.
+	ListFail string
 }
 
 func (s c06spec) hookName(i int) string {
@@ -107,7 +115,7 @@ func c06classify(spec c06spec, r *fxRun, groupSyncSeen map[string]bool) string {
 		}
 	}
 	for _, c := range r.Contexts {
-		if c["type"] == "Group" && (c["binding"] == "kg1" || c["binding"] == "kg2") && !groupSyncSeen[r.Hook] {
+		if c["type"] == "Group" && strings.HasPrefix(fmt.Sprint(c["binding"]), "kg") && !groupSyncSeen[r.Hook] {
 			return fmt.Sprintf("group:%v", c["groupName"])
 		}
 	}
@@ -141,6 +149,20 @@ func c06body(spec c06spec, obs *c06obs) func(x *vrt.Exec) {
 		for _, ns := range []string{"n1", "n2"} {
 			if _, err := dyn.Resource(cmGVR).Namespace(ns).Create(ctx, cmObj(ns, "o", 0), metav1.CreateOptions{}); err != nil {
 				panic(err)
+			}
+		}
+		if spec.ListFail != "" {
+			if fd, ok := dyn.(*fakedynamic.FakeDynamicClient); ok {
+				injected := 0
+				fd.PrependReactor("list", "configmaps", func(a k8stesting.Action) (bool, runtime.Object, error) {
+					if a.GetNamespace() == spec.ListFail && injected == 0 {
+						injected++
+						return true, nil, fmt.Errorf("injected: the API server is not ready")
+					}
+					return false, nil, nil
+				})
+			} else {
+				panic("c06: fake dynamic client expected")
 			}
 		}
 		exp := spec.expected()
@@ -231,7 +253,7 @@ func c06classifyDone(spec c06spec, r *fxRun) bool {
 		if c["binding"] == "onStartup" || c["type"] == "Synchronization" {
 			return true
 		}
-		if c["type"] == "Group" && (c["binding"] == "kg1" || c["binding"] == "kg2") {
+		if c["type"] == "Group" && strings.HasPrefix(fmt.Sprint(c["binding"]), "kg") {
 			return true
 		}
 	}
@@ -330,6 +352,20 @@ func c06check(obs *c06obs) (string, string) {
 	return "", ""
 }
 
+// c06extra: hook shapes that are not multiplied with the whole menu. A group whose first
+// binding has executeHookOnSynchronization: false - its Synchronization task is skipped, the
+// Synchronization of the rest of the group must still be executed - in both binding orders.
+func c06extra() []c06tmpl {
+	return []c06tmpl{
+		{id: "group-nosync-first", config: "configVersion: v1\nkubernetes:\n- name: kgn\n  kind: ConfigMap\n  group: g2\n  executeHookOnSynchronization: false\n  namespace: {nameSelector: {matchNames: [n1]}}\n- name: kg3\n  kind: ConfigMap\n  group: g2\n  namespace: {nameSelector: {matchNames: [n2]}}\nschedule:\n- name: sg2\n  crontab: \"* * * * *\"\n",
+			syncs: []string{"group:g2"}, events: map[string]string{"kgn": "", "kg3": "group:g2"}, scheds: []string{"sg2"}},
+		{id: "two-kube", config: "configVersion: v1\nkubernetes:\n- name: kb1\n  kind: ConfigMap\n  namespace: {nameSelector: {matchNames: [n1]}}\n- name: kb2\n  kind: ConfigMap\n  namespace: {nameSelector: {matchNames: [n2]}}\n",
+			syncs: []string{"sync:kb1", "sync:kb2"}, events: map[string]string{"kb1": "sync:kb1", "kb2": "sync:kb2"}},
+		{id: "group-nosync-last", config: "configVersion: v1\nkubernetes:\n- name: kg4\n  kind: ConfigMap\n  group: g3\n  namespace: {nameSelector: {matchNames: [n1]}}\n- name: kgm\n  kind: ConfigMap\n  group: g3\n  executeHookOnSynchronization: false\n  namespace: {nameSelector: {matchNames: [n2]}}\n",
+			syncs: []string{"group:g3"}, events: map[string]string{"kg4": "group:g3", "kgm": ""}},
+	}
+}
+
 func c06specs() []c06spec {
 	menu := c06menu()
 	var sets [][]c06tmpl
@@ -342,6 +378,9 @@ func c06specs() []c06spec {
 				sets = append(sets, []c06tmpl{menu[i], menu[j]})
 			}
 		}
+	}
+	for _, x := range c06extra() {
+		sets = append(sets, []c06tmpl{x}, []c06tmpl{menu[1], x})
 	}
 	if vres.Thorough() {
 		for i := range menu {
@@ -357,6 +396,14 @@ func c06specs() []c06spec {
 		sets = append(sets, []c06tmpl{menu[1], menu[4], menu[0]})
 	}
 	var out []c06spec
+	// enabling the kubernetes bindings fails once half-way (the second binding's LIST) and is retried
+	for _, x := range c06extra() {
+		if x.id == "two-kube" {
+			out = append(out, c06spec{Name: "two-kube/list-fails-once", Hooks: []c06tmpl{x}, FailJ: -1, ListFail: "n2"})
+			out = append(out, c06spec{Name: "start+kube+two-kube/list-fails-once", Hooks: []c06tmpl{menu[1], x}, FailJ: -1, ListFail: "n2"})
+		}
+	}
+	out = append(out, c06spec{Name: "group/list-fails-once", Hooks: []c06tmpl{menu[2]}, FailJ: -1, ListFail: "n2"})
 	// paths whose directory-walk order differs from their lexical order ('.' sorts before '/')
 	out = append(out, c06spec{Name: "paths:common.sh,common/x.sh", Hooks: []c06tmpl{menu[1], menu[1]}, FailJ: -1, Names: []string{"common.sh", "common/x.sh"}})
 	out = append(out, c06spec{Name: "paths:10-net.d/b,10-net/a", Hooks: []c06tmpl{menu[1], menu[2]}, FailJ: -1, Names: []string{"10-net.d/b", "10-net/a"}})
